@@ -45,14 +45,19 @@ def _comparam(name: str, default: str, text: bool = False, param_class: str = "C
              ID=f"{ref.SUBSET}.{name}", PARAM_CLASS=param_class, CPTYPE="STANDARD", CPUSAGE="ECU-COMM")
 
 
+def _complex_comparam(name: str, subs: Any, top: bool = False) -> str:
+    """COMPLEX-COMPARAM; a sub-parameter (name, [..]) is a nested COMPLEX-COMPARAM."""
+    children = [(_comparam(s, d, param_class="UNIQUE_ID") if isinstance(d, str) else _complex_comparam(s, d)) for s, d in subs]
+    return X("COMPLEX-COMPARAM", names(name, name[3:]), *children, ID=f"{ref.SUBSET}.{name}", PARAM_CLASS="UNIQUE_ID",
+             CPTYPE="STANDARD", CPUSAGE="ECU-COMM", ALLOW_MULTIPLE_VALUES=(True if top else None))
+
+
 @functools.lru_cache(maxsize=None)
-def subset_xml() -> str:
-    """The COMPARAM-SUBSET with every parameter the typed accessors read (ref.SIMPLE, ref.COMPLEX)."""
+def subset_xml(variant: str = "flat") -> str:
+    """The COMPARAM-SUBSET with every parameter the typed accessors read (ref.SIMPLE, ref.COMPLEX); `variant` selects
+    the specification of the complex parameter (ref.VARIANTS: flat / nested COMPLEX-COMPARAM first / nested later)."""
     simple = [_comparam(n, d["default"], bool(d.get("text"))) for n, d in ref.SIMPLE.items()]
-    cx = []
-    for n, d in ref.COMPLEX.items():
-        cx.append(X("COMPLEX-COMPARAM", names(n, n[3:]), *[_comparam(s, dflt, param_class="UNIQUE_ID") for s, dflt in d["subs"]],
-                    ID=f"{ref.SUBSET}.{n}", PARAM_CLASS="UNIQUE_ID", CPTYPE="STANDARD", CPUSAGE="ECU-COMM", ALLOW_MULTIPLE_VALUES=True))
+    cx = [_complex_comparam(n, ref.complex_subs(n, variant), top=True) for n in ref.COMPLEX]
     inner = (names(ref.SUBSET) + X("COMPARAMS", *simple) + X("COMPLEX-COMPARAMS", *cx) +
              X("DATA-OBJECT-PROPS", _dop("D_U32", "A_UINT32", 32), _dop("D_TXT", "A_UTF8STRING", None)))
     return HEAD + X("COMPARAM-SUBSET", inner, ID=ref.SUBSET, CATEGORY="TRANSPORT") + "</ODX>"
@@ -71,14 +76,21 @@ def simple_value(v: Optional[str]) -> str:
     return "<SIMPLE-VALUE/>" if v is None or v == "" else T("SIMPLE-VALUE", v)
 
 
+def complex_value_xml(slots: Sequence[Any]) -> str:
+    return "<COMPLEX-VALUE>" + "".join(complex_value_xml(s) if isinstance(s, (list, tuple)) else simple_value(s) for s in slots) + \
+        "</COMPLEX-VALUE>"
+
+
 def comparam_ref_xml(inst: Dict[str, Any], prefix: str = "") -> str:
-    """inst: {param, proto, value | subs, tag} (refcomparam.make_instances)."""
+    """inst: {param, proto, pstack?, value | subs, tag} (refcomparam.make_instances).  Both qualifiers may be present
+    (schema order: PROTOCOL-SNREF, then PROT-STACK-SNREF)."""
     if "subs" in inst:
-        v = "<COMPLEX-VALUE>" + "".join(simple_value(s) for s in inst["subs"]) + "</COMPLEX-VALUE>"
+        v = complex_value_xml(inst["subs"])
     else:
         v = simple_value(inst.get("value"))
     return X("COMPARAM-REF", v, X("DESC", T("p", inst["tag"])),
              X("PROTOCOL-SNREF", SHORT_NAME=prefix + inst["proto"]) if inst.get("proto") else "",
+             X("PROT-STACK-SNREF", SHORT_NAME=inst["pstack"]) if inst.get("pstack") else "",
              ID_REF=f"{ref.SUBSET}.{inst['param']}", DOCREF=ref.SUBSET, DOCTYPE="COMPARAM-SUBSET")
 
 
@@ -108,12 +120,16 @@ def hierarchy_layers(types: Sequence[str], parents: Sequence[Sequence[int]], loc
 
 
 def batch_files(elements: Sequence[Dict[str, Any]]) -> Dict[str, str]:
-    """elements: [{types, parents, local, reverse?}] -> {file name: xml}; element k gets the name prefix h<k>_."""
+    """elements: [{types, parents, local, reverse?, variant?}] -> {file name: xml}; element k gets the name prefix h<k>_.
+    All elements of a batch use the same subset variant (one COMPARAM-SUBSET per database)."""
+    variants = {e.get("variant", "flat") for e in elements}
+    assert len(variants) == 1, variants
+    variant = variants.pop()
     layers: List[Dict[str, Any]] = []
     for k, e in enumerate(elements):
         layers.extend(hierarchy_layers(e["types"], e["parents"], e["local"], f"h{k}_", bool(e.get("reverse"))))
     return {"DLC15.odx-d": container({"name": "DLC15", "layers": layers}),
-            ref.SUBSET + ".odx-cs": subset_xml(), ref.CSPEC + ".odx-c": cspec_xml()}
+            ref.SUBSET + ".odx-cs": subset_xml(variant), ref.CSPEC + ".odx-c": cspec_xml()}
 
 
 def load_files(files: Dict[str, str]) -> Any:
